@@ -738,6 +738,9 @@ def purity_runs(P):
             unaffected = all("?" in g for g in groups.values())
             obs.append(req_ob("R-PURE", site, "the thread count does not select between different computations", unaffected, detail="no pair of paths differing in the thread count was found" if not unaffected else None))
         # precision
+        import props_solver as _psv
+        if fp is False:
+            obs.extend(_psv.partition_obs(SA))
         S2, res2 = SA.run(fp, False, "generic", precision="single")
         r1 = [RS.PathView(S, r) for r in rets]
         res2g = [r for r in res2 if r.kind == "return" and not any(d[0].startswith("unknown test") for d in r.path)]
